@@ -9,6 +9,9 @@ int hx_omp_threads = 1, hx_omp_tid = 0;
 #include <amgcl/relaxation/ilu0.hpp>
 #include <amgcl/relaxation/detail/ilu_solve.hpp>
 #include <amgcl/detail/spgemm.hpp>
+#include <amgcl/coarsening/pointwise_aggregates.hpp>
+#include <amgcl/coarsening/tentative_prolongation.hpp>
+#include <amgcl/coarsening/smoothed_aggr_emin.hpp>
 using hx::scalar; using hx::var; using hx::Pattern; using hx::SCrs;
 namespace be = amgcl::backend; namespace rx = amgcl::relaxation; typedef be::builtin<scalar> BE; typedef be::numa_vector<scalar> NV; typedef hx::ACrs<scalar> M;
 
@@ -67,6 +70,24 @@ static void spgemm_case(const Pattern &pa, const Pattern &pb, int T) { hx::run_c
     { std::vector<scalar> l, r; std::vector<std::vector<scalar>> d1(C1.nrows,std::vector<scalar>(C1.ncols,scalar(0))), d2=d1; for (size_t i=0;i<C1.nrows;++i) { for (ptrdiff_t k=C1.ptr[i];k<C1.ptr[i+1];++k) d1[i][C1.col[k]]=d1[i][C1.col[k]]+C1.val[k]; for (ptrdiff_t k=R1.ptr[i];k<R1.ptr[i+1];++k) d2[i][R1.col[k]]=d2[i][R1.col[k]]+R1.val[k]; }
       for (size_t i=0;i<C1.nrows;++i) for (size_t j=0;j<C1.ncols;++j) { l.push_back(d1[i][j]); r.push_back(d2[i][j]); } hx::require("both SpGEMM algorithms return the same shape", R1.nrows==C1.nrows && R1.ncols==C1.ncols); hx::prove_eq_vec("the row-merge product (more than 16 threads) equals the marker-based product (up to 16 threads)", r, l); } }); }
 
+namespace co = amgcl::coarsening; typedef std::vector<std::vector<scalar>> Dense;
+static Dense dense_of(const M &A) { Dense d(A.nrows,std::vector<scalar>(A.ncols,scalar(0))); for (size_t i=0;i<A.nrows;++i) for (ptrdiff_t k=A.ptr[i];k<A.ptr[i+1];++k) d[i][A.col[k]]=d[i][A.col[k]]+A.val[k]; return d; }
+// the unordered critical-section accumulation of smoothed_aggr_emin (thread-private column markers, shared omega / denominator sums): the transfer operators equal
+// their thread-free definition, so no split of the rows over threads can change them beyond summation order
+// smoothed_aggr_emin against its definition, concrete matrices (uniform Laplacians: exact cancellations in A D^-1 A P do occur), exact rationals:
+//   A_f = strong part of A with the weak entries lumped into the diagonal D;  AP = A_f P_t;  ADAP = A_f D^-1 AP;
+//   omega_c = <AP_c, ADAP_c> / <ADAP_c, ADAP_c> (column-wise);  P = P_t - D^-1 AP Omega;  R = P_t^T - Omega P_t^T A_f D^-1
+static void emin_case(const Pattern &p, bool uniform, hx::Rng &rng) { hx::run_case(std::string("emin/")+(uniform?"uniform/":"mmatrix/")+p.name, [&]() { hx::Rng r2(rng.s); SCrs A=hx::mmatrix(p,r2); int n=p.n;
+    if (uniform) for (int i=0;i<n;++i) for (ptrdiff_t k=p.ptr[i];k<p.ptr[i+1];++k) A.val[k] = p.col[k]==i ? scalar(4) : scalar(-1);
+    auto Am=hx::to_amgcl(A); typedef co::smoothed_aggr_emin<BE> EM; EM::params prm; EM em(prm); std::shared_ptr<M> P, R; try { std::tie(P,R)=em.transfer_operators(*Am); } catch (const amgcl::error::empty_level&) { hx::count("empty level paths"); return; }
+    co::pointwise_aggregates ag(*Am,prm.aggr,0); co::nullspace_params ns; auto Pt=co::tentative_prolongation<M>(n,ag.count,ag.id,ns,1); Dense pt=dense_of(*Pt); size_t nc=ag.count;
+    Dense Af(n,std::vector<scalar>(n,scalar(0))); std::vector<scalar> D(n,scalar(0)); for (int i=0;i<n;++i) for (ptrdiff_t k=p.ptr[i];k<p.ptr[i+1];++k) { int c=p.col[k]; if (c==i || !ag.strong_connection[k]) D[i]+=A.val[k]; else Af[i][c]=A.val[k]; } for (int i=0;i<n;++i) Af[i][i]=D[i];
+    Dense AP(n,std::vector<scalar>(nc,scalar(0))), ADAP(n,std::vector<scalar>(nc,scalar(0))); for (int i=0;i<n;++i) for (int k=0;k<n;++k) if (!hx::is_zero_value(Af[i][k])) for (size_t c=0;c<nc;++c) AP[i][c]+=Af[i][k]*pt[k][c]; for (int i=0;i<n;++i) for (int k=0;k<n;++k) if (!hx::is_zero_value(Af[i][k])) for (size_t c=0;c<nc;++c) ADAP[i][c]+=Af[i][k]*AP[k][c]/D[k];
+    std::vector<scalar> om(nc); for (size_t c=0;c<nc;++c) { scalar a=0, b=0; for (int i=0;i<n;++i) { a+=AP[i][c]*ADAP[i][c]; b+=ADAP[i][c]*ADAP[i][c]; } om[c]=a/b; }
+    Dense pd=dense_of(*P), rd=dense_of(*R); std::vector<scalar> gp, rp, gr, rr; for (int i=0;i<n;++i) for (size_t c=0;c<nc;++c) { gp.push_back(pd[i][c]); rp.push_back(pt[i][c]-AP[i][c]*om[c]/D[i]); }
+    for (size_t c=0;c<nc;++c) for (int j=0;j<n;++j) { scalar t=0; for (int k=0;k<n;++k) t+=pt[k][c]*Af[k][j]; gr.push_back(rd[c][j]); rr.push_back(pt[j][c]-om[c]*t/D[j]); }
+    hx::prove_eq_vec("smoothed_aggr_emin: P = P_tent - D^-1 A_f P_tent Omega with the column-wise energy-minimising omega", gp, rp); hx::prove_eq_vec("smoothed_aggr_emin: R = P_tent^T - Omega P_tent^T A_f D^-1", gr, rr); }); }
+
 int main(int argc, char **argv) {
     hx::parse_args(argc,argv); bool T=hx::thorough(); hx::Rng rng(hx::args().seed);
     hx::encodes("relaxation::gauss_seidel::parallel_sweep<fwd/bwd> constructor (level assignment, ordering, per-thread task tables) and sweep(); relaxation::detail::ilu_solve<builtin>::sptr_solve<lower/upper> constructor and solve(); spgemm_saad / spgemm_rmerge per-thread work arrays");
@@ -79,5 +100,6 @@ int main(int argc, char **argv) {
     // rows whose entries are stored in arbitrary (here: reversed) column order -- the smoother may be used standalone on a user matrix
     for (size_t k=0;k<pats.size();++k) if (pats[k].n>=3 && (T || k%3==0)) { Pattern q=reversed(pats[k]); gs_case<true>(q,4); gs_case<false>(q,4); }
     for (int k=0;k<(T?40:10);++k) { spgemm_case(hx::random_pattern(3,3,rng,2,false),hx::random_pattern(3,3,rng,2,false), 2+rng.below(3)); spgemm_case(hx::random_pattern(4,3,rng,2,false),hx::random_pattern(3,5,rng,2,false), 17+rng.below(3)); }
+    for (auto &p : std::vector<Pattern>{hx::grid_pattern(3,3),hx::grid_pattern(6,3),hx::grid_pattern(8,2)}) emin_case(p,true,rng);
     return hx::finish();
 }
